@@ -67,9 +67,30 @@ def main():
     mod = importlib.import_module(f"props.{prop.lower()}")
     run = vlib.Run(prop, a.tier if a.tier in ("quick", "thorough") else "quick", seed)
     try:
+        import resource
+        # backstop: a check that eats memory on broken code fails with MemoryError (reported below) instead of taking the
+        # machine down
+        resource.setrlimit(resource.RLIMIT_AS, (24 << 30, 24 << 30))
+    except Exception:   # noqa
+        pass
+    try:
         return mod.check(run)
     except SystemExit:
         raise
+    except vlib.TooManyViolations:
+        run.notes.append(f"stopped after {vlib.MAX_VIOLATIONS} violations")
+        return run.finish(known_matcher=getattr(mod, "known", None))
+    except MemoryError:
+        # broken code made the check run out of its memory allowance: report what was found until then, if anything
+        import gc
+        gc.collect()
+        if run.violations:
+            run.notes.append("stopped by the memory limit")
+            run.mismatches[:] = []
+            return run.finish(known_matcher=getattr(mod, "known", None))
+        path = run._write_replay("crash", {"property": prop, "kind": "check-crashed", "error": "MemoryError()"})
+        print(f"VIOLATION property={prop} replay={path} no-failing-input-found")
+        return 1
     except BaseException as e:   # a crashing check must not look like a pass
         import traceback
         traceback.print_exc()
